@@ -40,7 +40,8 @@ def hook_commits():
 checks, na = [], []
 for pid, (level, technique, ref) in TABLE.items():
     pkg = pid.lower()
-    if os.path.isdir(os.path.join(V, "harness", pkg)):
+    main = os.path.join(V, "harness", pkg, "src", "main.rs")
+    if os.path.exists(main) and "stub: check for" not in open(main).read():
         lt = LEVEL_TEXT.get(pid, {})
         checks.append({
             "property_id": pid,
